@@ -81,12 +81,12 @@ CLAIMED = {
             "Five theorems (Props/C16.v). partial: the no-namespace spelling and XML text <-> tree are lxml's and reached only by the correspondence.",
             "Trusted: Coq kernel+VM; lxml; the modelling decision that readers touch documents only through find/iterfind/attrib/text (checked by decorated-document correspondence). Genuine defect F9 found by this check and repaired by a fix: commit.",
             "DESIGN.md section 4 C16"),
-    "C09": ("Coq proof of the write/read round trip for every criteria form (comparisons, conditions, ANDed/ORed trees of any depth by nested induction, criteria lists) and calibrators + full reader/writer/loader model + kernel-evaluated correspondence: implementation writer tree = model writer tree element by element, and the definition loaded back = the original (independent dumper incl. adjusters, identity), for definitions built both ways; identical decoding on packets",
-            "Six theorems named ..._partial (Props/C09.v): the full C09_roundtrip statement is proved for criteria and calibrators; encodings, parameter types, parameters, containers and the document level are covered by the executable round-trip check on the implementation and by model = implementation on both directions.",
+    "C09": ("Coq proof of the write/read round trip at every level up to the whole document (read_doc (write_doc d) = d for every writer-normal-form document: containers, parameters, parameter types, numeric/string/binary encodings, dynamic sizes and lookups, criteria and boolean trees of any depth, calibrators and context calibrators) + full reader/writer/loader model + kernel-evaluated correspondence: implementation writer tree = model writer tree element by element, and the definition loaded back = the original (independent dumper incl. adjusters, identity), for definitions built both ways; identical decoding on packets",
+            "Fifteen theorems (Props/C09.v), C09_roundtrip being the document-level statement. partial: the two time parameter types are excluded from ptype_wf (their Encoding scale/offset form is tied by the correspondence only); XML text <-> tree is lxml's. That dumped definitions are in the writer normal form the theorem assumes is checked by the correspondence (model reader output = independent dump).",
             "Trusted: Coq kernel+VM; str()/int()/float() attribute conversions (typed attributes); lxml serialisation/parsing. Genuine defects F12a, F12b found by this check and repaired by fix: commits.",
             "DESIGN.md section 4 C09"),
-    "C15": ("Coq proof (every element of the written tree is in the definition's namespace, by induction over all writers; writer is a function of definition and date; criteria stable under further cycles) + implementation runs: W(D)=W(D) bytes, G2=G3 bytes, lxml re-parse, namespace of every element, definition dump unchanged",
-            "Three theorems (Props/C15.v). partial: byte-level serialisation is lxml's; G2 = G3 at document level follows from C09's executable round trip (reloaded = original) and is observed directly on bytes.",
+    "C15": ("Coq proof (every element of the written tree is in the definition's namespace, by induction over all writers; writer is a function of definition and date; C15_stable: what is read back from a written tree is written to exactly that tree again, so every further cycle reproduces it) + implementation runs: W(D)=W(D) bytes, G2=G3 bytes, lxml re-parse, namespace of every element, definition dump unchanged",
+            "Four theorems (Props/C15.v). partial: byte-level serialisation is lxml's (tree equality is the theorem, byte equality G2 = G3 is observed on the implementation); time parameter types are outside doc_wf.",
             "Trusted: Coq kernel+VM; lxml serialisation.",
             "DESIGN.md section 4 C15"),
 }
